@@ -44,7 +44,7 @@ def fill(P):
     P("C11", "other",
       "contract-based deductive verification of Ballot.__eq__ and PreferenceProfile.condense_ballots (dict keyed by Ballot modelled as ordered key/value sequences looked up through the proved __eq__) + bounded run-time contract check",
       "condense_ballots is proved for all profiles: per (ranking, scores) content the written ballots carry exactly the input weight, written ballots are pairwise distinct in content, candidates kept; Ballot.__eq__ is characterised exactly; "
-      "PreferenceProfile.__eq__ is proved sound (profiles that compare equal give every content the same weight) and __add__ additive per content. "
+      "PreferenceProfile.__eq__ is proved sound (profiles that compare equal give every content the same weight), __add__ additive per content, to_ballot_dict / to_ranking_dict give every content / ranking its total weight. "
       "Validators / frozen-ness / derived fields are pydantic-mediated, completeness of == (equal weights => equal) is bounded: check over all orders of <=3 ballots from 12 contents.",
       "PreferenceProfile(...) constructor is an assumed contract (A-PYD); idempotence and order-independence of condensing are bounded (they follow mathematically from the proved clauses, no machine-checked lemma).", "DESIGN.md 4-C11, 8.2")
     P("C12", "other",
